@@ -116,7 +116,10 @@ func (m *monitor) onKey(contract common.Address, parts [][]byte, result []byte) 
 	// vote tallies (node_manager "consensusSigns" ‖ sha256(method ‖ request)) belong to ONE approving
 	// method: the same tally key reached from two different methods means two different logical
 	// tallies share a record
-	if kd == "consensusSigns" && m.cur != "" {
+	// the same holds for side_chain_manager's "bindSignInfo" tallies (signatures of the redeem
+	// script's keys collected per request): registerRedeem and setBtcTxParam requests are different
+	// logical records
+	if (kd == "consensusSigns" || kd == "bindSignInfo") && m.cur != "" {
 		if owner, seen := m.tally[k]; !seen {
 			m.tally[k] = m.cur
 		} else if owner != m.cur {
@@ -125,7 +128,7 @@ func (m *monitor) onKey(contract common.Address, parts [][]byte, result []byte) 
 				a, b = b, a
 			}
 			m.r.Violation("vote-tally-key-shared-by-methods:"+a+"|"+b,
-				fmt.Sprintf("the approval tally record %x is used by %s and by %s", result, a, b), map[string]interface{}{"key": kit.Hex(result)})
+				fmt.Sprintf("the approval tally record %x (%s) is used by %s and by %s", result, kd, a, b), map[string]interface{}{"key": kit.Hex(result)})
 		}
 	}
 	old, ok := m.byKey[k]
